@@ -103,6 +103,22 @@ def run_digits(ctx):
                         ctx.fail("wrong_exception", case, f"{u!r}")
                     continue
                 check_host_invariants(ctx, u, case, chain=False)
+    from ..gen import ascii_confusables
+
+    for d in ascii_confusables():
+        for h in (f"a{d}b.com", f"{d}.com", f"x.{d}"):
+            for route, fn in (("ctor", lambda: URL(f"http://{h}/p")), ("build_host", lambda: URL.build(scheme="http", host=h)), ("with_host", lambda: base.with_host(h)),
+                              ("build_authority", lambda: URL.build(scheme="http", authority=h))):
+                u = guarded(fn)
+                ctx.ev((route, "confusable", "exc" if is_exc(u) else "ok"))
+                case = {"route": route, "host": h, "class": "confusable"}
+                if is_exc(u):
+                    if u.type == "ValueError" or u.type.startswith("Unicode") or u.type in ("IDNAError", "InvalidCodepoint", "InvalidCodepointContext", "IDNABidiError"):
+                        ctx.count("rejected_ok")
+                    else:
+                        ctx.fail("wrong_exception", case, f"{u!r}")
+                    continue
+                check_host_invariants(ctx, u, case, chain=False)
     ctx.sample({"route": "ctor", "host": "１２７.０.０.１"})
 
 
@@ -239,7 +255,7 @@ def check_host_invariants(ctx, u, case, want_raw=None, addr=None, zone=None, cha
     else:
         rb = guarded(lambda: URL.build(scheme="http", host=dec))
         if is_exc(rb):
-            if all(c in rfc.REG_NAME_CHARS or c in ":%" for c in raw):
+            if hostm.is_reg_name(raw) or (":" in raw and all(c in rfc.REG_NAME_CHARS or c in ":%" for c in raw)):
                 ctx.fail("decoded_host_not_reencodable", case, f"build(host={dec!r}) raised {rb!r}")
                 ok = False
             else:
@@ -260,7 +276,7 @@ def check_host_invariants(ctx, u, case, want_raw=None, addr=None, zone=None, cha
         v = guarded(fn)
         ctx.ev(("chain", name, case.get("class"), "exc" if is_exc(v) else "ok"))
         if is_exc(v):
-            if name == "with_host_self" and not all(c in rfc.REG_NAME_CHARS or c in ":%" for c in raw):
+            if name == "with_host_self" and not (hostm.is_reg_name(raw) or (":" in raw and all(c in rfc.REG_NAME_CHARS or c in ":%" for c in raw))):
                 ctx.count("gray_with_host_self_not_regname")
                 continue
             if name in ("origin", "with_scheme") and not u.scheme and v.type == "ValueError":
